@@ -1,5 +1,5 @@
 import Model
-import Generated
+import Generated.Facts
 
 /-
   Facts regenerated from the source on every run for C04 (anonymous, well-formed https GETs) and
